@@ -279,10 +279,18 @@ func runHostile(seed uint64, cas int, tier string) *HostileRes {
 	res := &HostileRes{Keys: map[string]bool{}, Statuses: map[uint32]bool{}}
 	rng := NewRng(mix(seed, uint64(cas)+111111))
 	state := []string{"empty", "deep", "nearfull", "shrinking", "cold"}[cas%5]
+	if cas%10 == 9 {
+		// a disk with two block-bitmap blocks, filled up to the border between
+		// them; files whose background free crosses that border
+		state = "border"
+	}
 	p := Profile{Name: "C11", DiskBlocks: 30000, Unstable: cas%2 == 0, RPC: cas%3 == 1, W: allW(2), PBadName: 10, Own: []string{"canary", "crash", "hang", "memory"}}
 	if state == "nearfull" {
 		p.DiskBlocks = 2200
 		p.NearFull = true
+	}
+	if state == "border" {
+		p.DiskBlocks = 40000
 	}
 	mon.Reset(0, false)
 	d := NewCDisk(p.DiskBlocks)
@@ -321,6 +329,10 @@ func runHostile(seed uint64, cas int, tier string) *HostileRes {
 		}
 	case "cold":
 		s.restart()
+	case "border":
+		s.advanceAllocator(250)
+		s.shrinkBoundarySweep()
+		s.m.AllowNoSpc = true
 	}
 	// ---- hostile requests -------------------------------------------------
 	n := 700
